@@ -362,7 +362,9 @@ PPL::Polyhedron::relation_with(const Congruence& cg) const {
   }
   // Build first halfspace constraint.
   const bool positive = (signed_distance > 0);
-  const Constraint first_halfspace = positive ? (expr >= 0) : (expr <= 0);
+  // Note: the halfspaces are open, so that a polyhedron touching one
+  // of the two hyperplanes is not mistaken for a disjoint one.
+  const Constraint first_halfspace = positive ? (expr > 0) : (expr < 0);
 
   const Poly_Con_Relation first_rels = relation_with(first_halfspace);
   PPL_ASSERT(!first_rels.implies(Poly_Con_Relation::saturates())
@@ -378,7 +380,7 @@ PPL::Polyhedron::relation_with(const Congruence& cg) const {
   else {
     expr += modulus;
   }
-  const Constraint second_halfspace = positive ? (expr <= 0) : (expr >= 0);
+  const Constraint second_halfspace = positive ? (expr < 0) : (expr > 0);
 
   PPL_ASSERT(first_rels == Poly_Con_Relation::is_included());
   const Poly_Con_Relation second_rels = relation_with(second_halfspace);
